@@ -87,7 +87,7 @@ def run(ctx):
     ops = compile_driver('san', 'drv_allocops.c', 'drv_allocops')
     udata = (xzgen.gen_data(rng, 1500) * 3)[:4000] + bytes(rng.getrandbits(8) for _ in range(200))
     obase = ['upd %d 0 %d %s' % (v, sd, udata.hex()) for v in range(5) for sd in (0, 1)]
-    obase += ['idx %d %d 0' % (op, m) for op in range(7) for m in (0, 3, 511, 512, 513, 1024, 1100)]
+    obase += ['idx %d %d 0' % (op, m) for op in range(7) for m in (0, 3, 4, 5, 10, 511, 512, 513, 1024, 1100)]
     fstrs = ['6', '9e', 'lzma2:dict=1MiB', 'x86 delta:dist=4 lzma2:preset=3', 'arm64:start=4096 lzma2:lc=1,lp=2', 'delta:dist=256 riscv powerpc:start=16 lzma2:nice=273,mf=bt2', 'lzma1:pb=0']
     obase += ['flt %d 0 %s' % (op, st) for op in range(5) for st in fstrs if not (op in (3, 4) and 'lzma1' in st)]
     ob, of = run_lines(ops, obase, shards=4)
